@@ -350,6 +350,14 @@ func TestC18(t *testing.T) {
 		}
 		return counts[w]
 	}
+	rec.Regress(t, func(raw json.RawMessage) *Violation {
+		var c c18Case
+		if json.Unmarshal(raw, &c) != nil {
+			return nil
+		}
+		v, _, _ := runC18(c, false)
+		return v
+	})
 	t.Run("grid", func(t *testing.T) {
 		sh, nsh := shard()
 		run(t, c18Case{Workload: "http", TrigPoint: "end"})
